@@ -16,6 +16,36 @@ def capture_call(call_src: str):
     return eval(compile(tree, '<cex>', 'eval'), env)  # noqa: S307 - counterexample text produced by CrossHair
 
 
+class _ModEnv(dict):
+    def __missing__(self, name):
+        return importlib.import_module(name)
+
+
+def split_patches(call_src: str):
+    """CrossHair appends ' with crosshair.patch_to_return({time.time: [..]})' when a nondeterministic library function was
+    given symbolic return values. -> (call text, {function object: [values]})."""
+    import re
+    m = re.match(r'^(.*\)) with crosshair\.patch_to_return\((\{.*\})\)\s*$', call_src.strip(), re.S)
+    if not m:
+        return call_src, {}
+    env = _ModEnv(nan=float('nan'), inf=float('inf'))
+    return m.group(1), eval(m.group(2), {'__builtins__': {}}, env)  # noqa: S307
+
+
+def apply_patches(patches):
+    import sys
+    for fn, values in patches.items():
+        owner = sys.modules.get(getattr(fn, '__module__', None) or '')
+        name = getattr(fn, '__name__', None)
+        if owner is None or name is None or getattr(owner, name, None) is not fn:
+            continue
+        vals = list(values)
+
+        def repl(*_a, _vals=vals, _orig=fn, **_k):
+            return _vals.pop(0) if _vals else _orig(*_a, **_k)
+        setattr(owner, name, repl)
+
+
 def run(harness: str, func: str, args, kwargs) -> str:
     mod = importlib.import_module(harness)
     try:
@@ -27,5 +57,8 @@ def run(harness: str, func: str, args, kwargs) -> str:
 
 if __name__ == '__main__':
     spec = json.loads(sys.argv[1]) if not sys.argv[1].endswith('.json') else json.load(open(sys.argv[1]))
-    a, k = capture_call(spec['call'])
+    call, patches = split_patches(spec['call'])
+    a, k = capture_call(call)
+    importlib.import_module(spec['harness'])
+    apply_patches(patches)
     print('LABEL=' + run(spec['harness'], spec['func'], a, k))
